@@ -34,7 +34,9 @@ theorem C03_source_facts :
     Gen.CFHeaders.detectEarlyReturn = true ∧
     Gen.CFHeaders.thresholdExpr = "(len(filtersFromPeers)+2)/2" ∧
     Gen.CFHeaders.thresholdComparisons = true ∧
-    Gen.CFHeaders.verifyCalledInResolve = true := by decide
+    Gen.CFHeaders.verifyCalledInResolve = true ∧
+    Gen.CFHeaders.writeResolvesBlocksByStopHash = true ∧
+    Gen.CFHeaders.resolveSanityOnWholeLists = true := by decide
 
 /-- (a) the filter-header chain never runs ahead of the block-header chain -/
 theorem C03_not_ahead (H : FHash → Hdr → Hdr) (s0 : St) (h0 : Inv H s0) (ops : List Op) :
